@@ -178,8 +178,8 @@ func runPair(p Pair) result { //nolint:cyclop,gocognit
 			if withFeedback && i%40 == 39 {
 				feedback(ph*p.PerPhase + i)
 			}
-			if i%2000 == 1999 {
-				time.Sleep(2 * interval) // let tick-driven pruning happen at a realistic packet-to-tick ratio
+			if i%100 == 99 {
+				time.Sleep(interval) // a realistic packet-to-tick ratio: at most ~100 packets per report interval
 			}
 		}
 		// phase boundary: pacers drain, tickers run, then measure
